@@ -33,20 +33,20 @@ func (o Obligation) Key() string { return o.Rule + "|" + o.Construct }
 
 // Run collects the obligations of one property check.
 type Run struct {
-	Property string
-	Tier     string
-	Level    string
-	Configs  []string
-	Obls     []Obligation
-	Info     []string
-	Rules    map[string]string // rule -> one-line statement of what it decides
-	Floors   map[string]int    // rule -> minimum number of instances
-	Trusted  []string
-	Assume   []string
+	Property   string
+	Tier       string
+	Level      string
+	Configs    []string
+	Obls       []Obligation
+	Info       []string
+	Rules      map[string]string // rule -> one-line statement of what it decides
+	Floors     map[string]int    // rule -> minimum number of instances
+	Trusted    []string
+	Assume     []string
 	NotDecided []string
-	Funcs    map[string]bool // functions analysed
-	start    time.Time
-	cfgTag   string
+	Funcs      map[string]bool // functions analysed
+	start      time.Time
+	cfgTag     string
 }
 
 func NewRun(property, tier, level string) *Run {
